@@ -19,6 +19,11 @@ def trunc(o, n=1500):
 for pid in sys.argv[1:]:
     for f in sorted(glob.glob(os.path.join(root, 'replays', pid + '-*.json'))):
         r = json.load(open(f))
+        tree = r.get('tree', '')
+        if not tree.startswith('/repo@') or tree.endswith('+dirty'):
+            # only findings on /repo's committed tree are ever adopted (never those of a seeded change or a half-made fix)
+            print('skipped', os.path.basename(f), 'tree', tree or '(unknown: written before replays carried their tree)')
+            continue
         key = (r['property'], r['signature'])
         if key in have:
             continue
